@@ -261,20 +261,25 @@ _AMEND = {
     "C07": "The output stream and the error stream are captured separately: error text and usage are looked for in the error stream only.",
     "C13": "Clause ownership: C13 reports acceptance (exactly when strconv accepts every command-line token) and the value of every container for "
            "which some token was converted; pure defaults are C06's, flags C15's. The empty token is delivered as a positional and as a separate-form value.",
-    "C14": "Added: in a quarter of the cases only the root declares parameters (trees of depth <= 4) and, three times out of four, a first help "
+    "C14": "The declared version string may be empty. Added: in a quarter of the cases only the root declares parameters (trees of depth <= 4) and, three times out of four, a first help "
            "request for an ancestor of the addressed command (or any command) is made on the SAME application object before the case's own "
            "command line (class sequence:second-run-on-same-app). Help and version text is looked for in the union of both streams.",
     "C15": "Clause ownership: C15 reports only the SetByUser flags of accepted runs (values are C06's/C13's); after a second command line on the "
            "same application object every container it supplies a value for must be flagged.",
     "C16": "In about a third of the cases the command under test is a sub command ('app sub ...'); the reference-model verdict of the explicit "
            "spec is only counted (deferred to C01).",
-    "C17": "Layout is not asserted: names of an option may stand in either order, environment names with or without '$', the default of a "
+    "C17": "Sub command descriptions may have several lines (every line belongs to the row). Layout is not asserted: names of an option may stand in either order, environment names with or without '$', the default of a "
            "hidden value is looked for by its value (not by the '(default' wording), the COMMAND marker is not asserted when every sub command is hidden; "
            "non-ASCII option names have two letters (long options whether letters are counted in bytes or characters).",
-    "C18": "Argument names whose status the statement leaves open are not generated (the word OPTIONS, non-ASCII upper-case or caseless letters, a leading underscore).",
-    "C19": "Blanks around environment items are not part of the asserted protocol; further Set calls after a failing one are allowed (counted); "
+    "C18": "Option names include mixed-case long names; in a quarter of the cases Spec is assigned before the declarations (then only the declaration-time part applies). Argument names whose status the statement leaves open are not generated (the word OPTIONS, non-ASCII upper-case or caseless letters, a leading underscore).",
+    "C19": "A flag-like custom type is also given explicit literals other than true ('-f=0', '--flag=T'), which must reach Set as written. Blanks around environment items are not part of the asserted protocol; further Set calls after a failing one are allowed (counted); "
            "a sentence rejected by the library is deferred to C01.",
     "C20": "Shared default slices have spare capacity.",
+    "C05": "Every other panic value implements error (as a runtime error or a hook panicking with an error does), and the random plans run under "
+           "each of the three error policies: a valid invocation must not be affected by the policy (plans without Action stay under ContinueOnError).",
+    "C09": "A fifth tail pattern 'X... Y' makes the parser backtrack after the options have ended.",
+    "C12": "A flag's valid environment value may be false/0/F (it is 'given by the environment' all the same); the recorders of this check render "
+           "their content in String(), as the flag.Value contract asks.",
 }
 for _k, _v in _AMEND.items():
     CHECKS[_k]["rule"] += " AMENDED: " + _v
